@@ -1,2 +1,2 @@
-import Dashu.Driver.Ratio
-def main (args : List String) : IO UInt32 := Dashu.Driver.runMain Dashu.Driver.Ratio.dispatchAll args
+import Dashu.Driver.RatioPred
+def main (args : List String) : IO UInt32 := Dashu.Driver.runMain Dashu.Driver.RatioPred.dispatchAll args
